@@ -352,12 +352,38 @@ def check_read(report, db, S, vi, vl, rd, ref, consts):
                          'different bytes: %s' % sorted(
                              show(b) for b in byte_terms))
         # returned value is the accumulator
+        def nonneg(t):
+            """sign analysis: the term cannot be negative (the accumulator
+            is a sum of non-negative pieces by the checks above)"""
+            if t[0] == 'phi' and t[1] == acc:
+                return True
+            if is_const(t):
+                return isinstance(t[1], int) and t[1] >= 0
+            if t[0] != 'op' or not t[2]:
+                return False
+            a = t[2]
+            if t[1] == '&':
+                return any(nonneg(x) for x in a)
+            if t[1] in ('|', '+', '*'):
+                return all(nonneg(x) for x in a)
+            if t[1] in ('<<', '>>', '//'):
+                return nonneg(a[0])
+            if t[1] == '%':
+                return len(a) == 2 and nonneg(a[1])
+            if t[1] in ('int', 'abs', 'len', 'ord'):
+                return t[1] != 'int' or nonneg(a[0])
+            return False
         for p in paths:
             if p.returns:
                 v = p.value
                 if not any(t[0] == 'phi' and t[1] == acc
                            for t in subterms(v)) and v != ('const', None):
                     prob3.append('read returns %s' % show(v)[:80])
+                elif v != ('const', None) and not nonneg(v):
+                    prob3.append('read returns %s, which can be negative: '
+                                 'send refuses negative numbers, so a value '
+                                 'read from the wire cannot be written back'
+                                 % show(v)[:80])
         if ci is vi:
             consts['read_mask'] = mask
             consts['read_shift'] = shift_unit
